@@ -352,7 +352,10 @@ def scan_entries(text, comments="#"):
     """Entries of a multi-TLE text: after dropping blank and comment lines, every line starting with
     '1 ' that is immediately followed by a line starting with '2 ', both being valid lines (length 69,
     checksum).  The name is the line before the pair if it is neither a '1 ' nor a '2 ' line.
-    Returns a list of (name or None, line1, line2)."""
+    Returns a list of (name or None, line1, line2, strict) where strict tells that the pair is also
+    well-formed column by column (own parser accepts it) with the same catalogue number on both lines.
+    Pairs that are not strict (e.g. a renumbered line, lines of two different objects) pass the three
+    validity tests of the property but are not entries of any catalogue: a reader may take or leave them."""
     lines = [ln for ln in text.splitlines() if ln.strip() and not ln.startswith(comments)]
     out = []
     k = 0
@@ -365,7 +368,12 @@ def scan_entries(text, comments="#"):
                     name = lines[k - 1].strip()
                     if name.startswith("0 "):
                         name = name[2:]
-                out.append((name, a.strip(), b.strip()))
+                try:
+                    f = parse(a.strip(), b.strip())
+                    strict = f["norad"] == f["norad2"]
+                except (TleFormatError, ValueError):
+                    strict = False
+                out.append((name, a.strip(), b.strip(), strict))
             k += 2
         else:
             k += 1
